@@ -138,7 +138,8 @@ func flatStreams(id string) []func(*Ctx) StreamResult {
 	case "C06":
 		ss = append(ss, removeUnusedStream.Run, phasesStreamRun)
 	case "C07":
-		ss = append(ss, sortStream.Run)
+		// the order-independence theorems speak about the phase model, which the phases stream ties to flatten.go
+		ss = append(ss, sortStream.Run, phasesStreamRun)
 	case "C09":
 		ss = append(ss, flattenPlusStream.Run, removeUnusedStream.Run)
 	}
